@@ -18,6 +18,8 @@
 (*    two parameters => parameter 1, else the exception address; on 32-bit   *)
 (*    CPUs the value is zero-extended from its low 32 bits;                  *)
 (*  - crash reason class from OS family, code and parameter count;           *)
+(*  - the walk reads the memory region that contains the stack pointer of    *)
+(*    the context it starts from (own stack, else the memory list);          *)
 (*  - process id: misc info if that stream exists, else /proc status;        *)
 (*  - process creation time: misc info's process times when flagged; dump    *)
 (*    time: the header's time stamp, whatever its value;                      *)
@@ -28,13 +30,14 @@ EXTENDS Naturals, Sequences, TLC, FiniteSets, Json
 CONSTANTS MaxThreads
 Ids == {1, 2}
 Thr == [id : Ids, ctxOk : BOOLEAN, named : BOOLEAN, spot : {"mod", "unl", "unl2", "none"}]     \* spot: where the thread's ip lies
-NoExc == [k |-> "none", tid |-> 0, hasCtx |-> FALSE, ctxOk |-> FALSE, code |-> "other", np |-> 0, info1 |-> "lo", addr |-> "lo", kind |-> 0]
-Exc(t, h, c, cd, n, i, a, kd) == [k |-> "some", tid |-> t, hasCtx |-> h, ctxOk |-> c, code |-> cd, np |-> n, info1 |-> i, addr |-> a, kind |-> kd]
+NoExc == [k |-> "none", tid |-> 0, hasCtx |-> FALSE, ctxOk |-> FALSE, code |-> "other", np |-> 0, info1 |-> "lo", addr |-> "lo", kind |-> 0, sp |-> "thread"]
+\* sp: where the exception context's stack pointer lies - in a thread's stack, in another region of the memory list, in no memory at all
+Exc(t, h, c, cd, n, i, a, kd, s) == [k |-> "some", tid |-> t, hasCtx |-> h, ctxOk |-> c, code |-> cd, np |-> n, info1 |-> i, addr |-> a, kind |-> kd, sp |-> s]
 \* the full product of all dimensions is far too large, and the dimensions are independent by construction of the rules:
 \* ExcsA varies who the exception names and whether its context is readable (thread mapping), ExcsB varies the record's
 \* code / parameters / addresses (crash address and reason)
-ExcsA == {Exc(t, h, c, "av", 2, "lo", "lo", 0) : t \in {1, 2, 9}, h \in BOOLEAN, c \in BOOLEAN}
-ExcsB == {Exc(1, TRUE, TRUE, cd, n, i, a, kd) : cd \in {"av", "inpage", "other"}, n \in {0, 1, 2, 3}, i \in {"lo", "hi"}, a \in {"lo", "hi"}, kd \in {0, 1, 8}}
+ExcsA == {Exc(t, h, c, "av", 2, "lo", "lo", 0, s) : t \in {1, 2, 9}, h \in BOOLEAN, c \in BOOLEAN, s \in {"thread", "other", "nowhere"}}
+ExcsB == {Exc(1, TRUE, TRUE, cd, n, i, a, kd, "thread") : cd \in {"av", "inpage", "other"}, n \in {0, 1, 2, 3}, i \in {"lo", "hi"}, a \in {"lo", "hi"}, kd \in {0, 1, 8}}
 Excs == ExcsA \cup ExcsB
 NoBp == [k |-> "none", dump |-> 0, req |-> 0]
 Bps == {[k |-> "some", dump |-> d, req |-> r] : d \in {0, 1, 2}, r \in {0, 1, 2, 9}}      \* 0 = field not valid
@@ -78,7 +81,11 @@ CreateTime == IF misc \in {"pid_times", "nopid_times"} THEN "misc" ELSE "absent"
 Pid == IF misc \in {"pid", "pid_times"} THEN "misc" ELSE IF misc \in {"nopid", "nopid_times"} THEN "absent" ELSE IF status = "pid" THEN "status" ELSE "absent"
 \* unloaded modules covering frame 0 of thread i (only when it lies in no loaded module)
 Unl(i) == IF Src(i) # "thread" THEN {} ELSE CASE threads[i].spot = "unl" -> {"u1"} [] threads[i].spot = "unl2" -> {"u1", "u2"} [] OTHER -> {}
-Expected == [ infos |-> [i \in 1..Len(threads) |-> Info(i)], srcs |-> [i \in 1..Len(threads) |-> Src(i)],
+\* the walk reads the memory that contains the stack pointer of the context it starts from: the thread's own stack when that
+\* contains it, else whichever region of the memory list does; the caller found there tells which memory was read
+Caller(i) == IF Src(i) = "none" THEN "none" ELSE IF Src(i) = "thread" THEN "thread_stack"
+             ELSE CASE exc.sp = "thread" -> "thread_stack" [] exc.sp = "other" -> "other_region" [] OTHER -> "none"
+Expected == [ caller |-> [i \in 1..Len(threads) |-> Caller(i)], infos |-> [i \in 1..Len(threads) |-> Info(i)], srcs |-> [i \in 1..Len(threads) |-> Src(i)],
               ids |-> [i \in 1..Len(threads) |-> threads[i].id], named |-> [i \in 1..Len(threads) |-> \E j \in 1..Len(threads) : threads[j].id = threads[i].id /\ threads[j].named],     \* names are keyed by thread id
               unl |-> [i \in 1..Len(threads) |-> Unl(i)], req |-> ReqSet, addr |-> CrashAddr, reason |-> Reason, pid |-> Pid, ctime |-> CreateTime, time |-> stamp ]
 \* ---- design-level sanity ----
